@@ -174,4 +174,16 @@ def basisA (ansi : Bool) (start num : Nat) (D : Rat) (g : AGrid) (cutoff useCach
   if useCache then resultsA false D g (basisReqs ansi start num cutoff)
   else (basisReqs ansi start num cutoff).map fun q => (modeA false D g q {}).1
 
+/-! ## Field generators (`grid=None`) -/
+
+/-- A sequence of generator calls `gens[j](grid)`: each evaluates `zernike(n, m, D, grid, cutoff, cache)` on the grid it
+is handed.  `shared = true`: all generators were built around one cache dictionary (the unrepaired
+`make_zernike_basis(…, grid=None)`, defect D130 — the cache is then used on whatever grid comes next);
+`shared = false`: no cache (the code as it is: `cache = None` when no grid is given). -/
+def runGensA (shared : Bool) (D : Rat) : List (AGrid × Req) → AState → List Arr
+  | [], _ => []
+  | (g, q) :: rest, st =>
+    let r := modeA false D g q (if shared then st else {})
+    r.1 :: runGensA shared D rest r.2
+
 end HcipyVerif.Zernike
